@@ -646,6 +646,122 @@ def run_cube(ctx: Ctx) -> None:
                    f"grid.cube of a fractional-size grid align_corners={ac} {tag}", gcf)
 
 
+def run_cube_api(ctx: Ctx) -> None:
+    """Two-cube maps, the CUBE_CORNERS spellings, the module-level wrappers of cube.py / grid.py and the sequence forms of a Cube."""
+    prog = ctx.prog
+    CM, GM = "deepali.core.cube", "deepali.core.grid"
+    fT = prog.func(CM, "Cube.transform")
+    W_ = {n: prog.func(CM, n) for n in ("cube_points_transform", "cube_vectors_transform", "cube_transform_points", "cube_transform_vectors")}
+    G_ = {n: prog.func(GM, n) for n in ("grid_points_transform", "grid_vectors_transform")}
+    for f in list(W_.values()) + list(G_.values()) + [prog.func(GM, "Grid.inverse_transform"), prog.func(CM, "Cube.from_seq")]:
+        ctx.fn(f)
+    ctx.rule("T1.cube-api", "Cube.transform(axes, to_axes, to_cube): CUBE->CUBE of another cube is WORLD->CUBE of the other after CUBE->WORLD of "
+                            "this one (points and vectors); CUBE_CORNERS is accepted wherever it means the same as CUBE and refused (ValueError) "
+                            "where a sampling convention would be needed; GRID is refused; Cube.transform_points / transform_vectors and the "
+                            "module-level cube_* / grid_* wrappers return what the corresponding method returns with vectors fixed by their "
+                            "name; Grid.inverse_transform is WORLD -> the grid's own cube axes; Cube.numpy / from_numpy / from_seq round-trip "
+                            "(centre and origin forms); extent_ rescales about the centre")
+    for D in (2, 3):
+        def th(D=D):
+            reset_relations()
+            facts = fresh_facts()
+            it = make_interp(ctx)
+            Cube = prog.cls(CM, "Cube")
+            Axes = prog.cls(GM, "Axes")
+            CU, CC, W, GR = (it.enum(Axes, n) for n in ("CUBE", "CUBE_CORNERS", "WORLD", "GRID"))
+
+            def mk(tag):
+                e = [Rat.atom(f"{tag}e{i}") for i in range(D)]
+                c = [Rat.atom(f"{tag}c{i}") for i in range(D)]
+                for x in e:
+                    facts.declare_positive(x)
+                Rm = rotation(D, tag)
+                cube = it.new(Cube, extent=STensor.from_flat(e, [D]), center=STensor.from_flat(c, [D]), direction=Rm)
+                ref = symt.cat([symt.matmul(Rm, symt.diag(STensor.from_flat([x / 2 for x in e], [D]))), STensor.from_flat(c, [D]).unsqueeze(1)], dim=1)
+                return cube, ref
+            c1, r1 = mk("a")
+            c2, r2 = mk("b")
+            I = identity_h(D)
+            m12 = as_h(it.method(c1, "transform", CU, CU, c2))
+            # r2 o m12 = r1  (mapping a cube-1 coordinate to world either way)
+            if not teq(compose(r2, m12), r1):
+                return False, "CUBE->CUBE of another cube is not WORLD->CUBE(other) o CUBE->WORLD(this)"
+            v12 = it.method(c1, "transform", CU, CU, c2, vectors=True)
+            if not teq(v12, m12[:, :D]):
+                return False, "two-cube vectors map is not the linear part of the two-cube point map"
+            if not teq(as_h(it.method(c1, "transform", CU, W, c2)), r1):
+                return False, "CUBE->WORLD with to_cube given depends on the other cube"
+            if not teq(compose(r2, as_h(it.method(c1, "transform", W, CU, c2))), I):
+                return False, "WORLD->CUBE with to_cube given is not the inverse of the other cube's CUBE->WORLD"
+            # CUBE_CORNERS spellings
+            if not teq(as_h(it.method(c1, "transform", CC, W)), r1) or not teq(compose(as_h(it.method(c1, "transform", W, CC)), r1), I):
+                return False, "CUBE_CORNERS <-> WORLD differs from CUBE <-> WORLD on a Cube"
+            if not teq(as_h(it.method(c1, "transform", CC, CC, c2)), m12):
+                return False, "CUBE_CORNERS -> CUBE_CORNERS of another cube differs from CUBE -> CUBE"
+            for a, b in ((CU, CC), (CC, CU), (GR, W), (W, GR), (GR, GR)):
+                try:
+                    it.method(c1, "transform", a, b)
+                except InterpError as e:
+                    if e.exc_type == "ValueError":
+                        continue
+                    raise
+                return False, f"Cube.transform({a.name}, {b.name}) is accepted although a Cube has no sampling convention / grid"
+            # methods and wrappers
+            p = STensor.symbols("p", [2, D])
+            want_p = symt.stack([apply(m12, p[i]) for i in range(2)], 0)
+            want_v = symt.matmul(p, m12[:, :D].t())
+            if not teq(it.method(c1, "transform_points", p, CU, CU, c2), want_p) or not teq(it.call(W_["cube_transform_points"], p, c1, CU, c2, CU), want_p):
+                return False, "Cube.transform_points / cube_transform_points towards another cube"
+            if not teq(it.method(c1, "transform_vectors", p, CU, CU, c2), want_v) or not teq(it.call(W_["cube_transform_vectors"], p, c1, CU, c2, CU), want_v):
+                return False, "Cube.transform_vectors / cube_transform_vectors towards another cube"
+            if not teq(as_h(it.call(W_["cube_points_transform"], c1, CU, c2, CU)), m12) or not teq(it.call(W_["cube_vectors_transform"], c1, CU, c2, CU), m12[:, :D]):
+                return False, "cube_points_transform / cube_vectors_transform"
+            if not teq(as_h(it.call(W_["cube_points_transform"], c1, CU, c2, W)), r1):
+                return False, "cube_points_transform(to_axes=WORLD)"
+            # sequence forms
+            seq = [to_rat(x) for x in it.method(c1, "extent").flat()] + [to_rat(x) for x in it.method(c1, "center").flat()] + \
+                  [to_rat(x) for x in it.method(c1, "direction").flat()]
+            from ..tae import ClassVal
+            c3 = it.method(ClassVal(Cube), "from_seq", seq)
+            if not teq(as_h(it.method(c3, "transform", CU, W)), r1):
+                return False, "Cube.from_seq(extent, center, direction) does not reproduce the cube"
+            oseq = [to_rat(x) for x in it.method(c1, "extent").flat()] + [to_rat(x) for x in it.method(c1, "origin").flat()] + \
+                   [to_rat(x) for x in it.method(c1, "direction").flat()]
+            c4 = it.method(ClassVal(Cube), "from_seq", oseq, origin=True)
+            if not teq(as_h(it.method(c4, "transform", CU, W)), r1):
+                return False, "Cube.from_seq(extent, origin, direction, origin=True) does not reproduce the cube"
+            # extent_ keeps the centre
+            c5 = it.method(c1, "clone")
+            e2 = STensor.from_flat([Rat.atom(f"f{i}") for i in range(D)], [D])
+            it.method(c5, "extent_", e2)
+            if not teq(it.method(c5, "center"), it.method(c1, "center")) or not teq(it.method(c5, "extent"), e2):
+                return False, "extent_(e) does not keep the centre / set the extent"
+            if not teq(it.method(c1, "extent"), STensor.from_flat([Rat.atom(f"ae{i}") for i in range(D)], [D])):
+                return False, "extent_ on a clone changed the original"
+            return True, ""
+        _guard(ctx, "T1.cube-api", f"D={D}", fT, f"two cubes D={D}", th)
+
+        for ac in (True, False):
+            def thg(D=D, ac=ac):
+                gt = GridTables(ctx, D, ac)
+                it, g = gt.it, gt.grid
+                g2, _ = sym_grid(it, D, "h", not ac, gt.facts)
+                own = gt.ax["CUBE_CORNERS" if ac else "CUBE"]
+                inv = as_h(it.method(g, "inverse_transform"))
+                if not teq(inv, as_h(it.method(g, "transform", gt.ax["WORLD"], own))):
+                    return False, "Grid.inverse_transform() is not WORLD -> the grid's own cube axes"
+                if not teq(it.method(g, "inverse_transform", vectors=True), inv[:, :D]):
+                    return False, "Grid.inverse_transform(vectors=True) is not the linear part"
+                for a, b in (("GRID", "CUBE"), ("CUBE_CORNERS", "WORLD"), ("WORLD", "GRID")):
+                    mp = as_h(it.call(G_["grid_points_transform"], g, gt.ax[a], g2, gt.ax[b]))
+                    mv = it.call(G_["grid_vectors_transform"], g, gt.ax[a], g2, gt.ax[b])
+                    ref = as_h(it.method(g, "transform", gt.ax[a], gt.ax[b], g2))
+                    if not teq(mp, ref) or not teq(mv, ref[:, :D]):
+                        return False, f"grid_points_transform / grid_vectors_transform {a}->{b} towards another grid"
+                return True, ""
+            _guard(ctx, "T1.cube-api", f"D={D}:grid-wrappers:{ac}", G_["grid_points_transform"], f"grid wrappers D={D} align_corners={ac}", thg)
+
+
 # --------------------------------------------------------------------------- grids with singleton axes (single slice / single row)
 def run_singleton(ctx: Ctx) -> None:
     """The ITK convention on grids that have an axis with exactly one sample (size 1): (n - 1)/2 = 0 on that axis."""
